@@ -374,9 +374,11 @@ class MultiPort(BaseIOPort):
                 port.send(message)
 
     def _receive(self, block=True):
+        # Always poll: with block=True multi_receive() never ends, so
+        # extend() would never return. receive() does the waiting.
         self._messages.extend(multi_receive(self.ports,
                                             yield_ports=self.yield_ports,
-                                            block=block))
+                                            block=False))
 
 
 def multi_receive(ports, yield_ports=False, block=True):
